@@ -79,12 +79,21 @@ def base_table(base):
 def model_table(case):
     """last-assignment-wins model of Context.catcode."""
     t = base_table(case["base"])
+    stack = []
     for ch, code in case["ops"]:
-        if code == 12:
+        if ch == PUSH:
+            stack.append(dict(t))           # a nested group: its assignments end with it
+        elif ch == POP:
+            t = stack.pop()
+        elif code == 12:
             t.pop(ch, None)
         else:
             t[ch] = code
     return t
+
+
+# pseudo operations inside "ops": open / close a nested group (Context.push() / Context.pop())
+PUSH, POP = "<push>", "<pop>"
 
 
 # What plain TeX (TeXbook p. 343, INITEX + plain.tex) prescribes for the default table, written out
@@ -133,7 +142,11 @@ def repair(case):
 def tables():
     base = st.sampled_from(["default"] * 5 + ["atletter"] * 3 + ["verbatim"])
     op = st.tuples(st.sampled_from(OPCHARS), st.sampled_from(OPCODES)).map(list)
-    ops = st.one_of(st.just([]), st.just([]), st.lists(op, min_size=1, max_size=6))
+    plain = st.lists(op, min_size=1, max_size=6)
+    # ... a nested group with assignments of its own is opened and closed before the text is read
+    nested = st.tuples(st.lists(op, max_size=3), st.lists(op, max_size=3), st.lists(op, max_size=2)).map(
+        lambda t: t[0] + [[PUSH, 0]] + t[1] + [[POP, 0]] + t[2])
+    ops = st.one_of(st.just([]), st.just([]), plain, plain, nested)
     return st.tuples(base, ops)
 
 
@@ -252,8 +265,18 @@ def check(case):
         if err is not None:
             return fail(err.key, err.detail(), feats)
     steps = [None] + list(ops)
+    saved = []
     for step in steps:
-        if step is not None:
+        if step is not None and step[0] in (PUSH, POP):
+            _, err = call_real(ctx.push if step[0] == PUSH else ctx.pop)
+            if err is not None:
+                return fail(err.key, dict(err.detail(), op=step), feats)
+            if step[0] == PUSH:
+                saved.append(dict(model))
+                feats.add("table:nested-group-opened-and-closed")
+            else:
+                model = saved.pop()
+        elif step is not None:
             ch, code = step
             _, err = call_real(ctx.catcode, ch, code)
             if err is not None:
